@@ -4,7 +4,7 @@ import math
 import coqfmt as cf
 
 RULE = ("cases = random kernel argument arrays (1-300 units, 1-5 validation points, 1-5 classes, ~35% tied distances, "
-        "utilities of magnitude 1e0..1e12 incl. thirds/sevenths and negative values) run through the extension "
+        "utilities of magnitude 1e0..1e12 incl. thirds/sevenths and negative values) each as the second step of a two-call history on the same array objects rewritten in place, run through the extension "
         "rebuilt from shapley_cy.pyx on this run AND through the pure-Python reference kernel; both results compared "
         "bit for bit with their binary64 models evaluated inside Coq and with each other; plus large cases (8k..65k "
         "units x 16..64 points, ties) compared with each other in Python; non-trivial = at least two units receive "
@@ -74,8 +74,21 @@ def run_impl(c):
     from datascope.importance.shapley import compute_all_importances
     from datascope.importance.shapley_cy import compute_all_importances_cy
     labels, dist, utils, nulls = arrays(c)
-    cy = np.asarray(compute_all_importances_cy(labels.copy(), dist.copy(), utils.copy(), nulls.copy()), dtype=np.float64)
-    ref = np.asarray(compute_all_importances(labels.copy(), dist.copy(), utils.copy(), nulls.copy()), dtype=np.float64)
+    if not c["large"] and not c.get("fixed"):
+        # a two-step history on the SAME array objects: a first call on other contents, then the buffers are rewritten
+        # in place and the measured call is made (the kernels must be functions of the argument VALUES)
+        other = dict(c, seed=c["seed"] ^ 0x5bd1e995)
+        l0, d0, u0, n0 = arrays(other)
+        bl, bd, bu, bn = l0.copy(), d0.copy(), u0.copy(), n0.copy()
+        compute_all_importances_cy(bl, bd, bu, bn)
+        compute_all_importances(bl, bd, bu, bn)
+        np.copyto(bl, labels); np.copyto(bd, dist); np.copyto(bu, utils); np.copyto(bn, nulls)
+        cy = np.asarray(compute_all_importances_cy(bl, bd, bu, bn), dtype=np.float64)
+        ref = np.asarray(compute_all_importances(bl, bd, bu, bn), dtype=np.float64)
+        assert np.array_equal(bd, dist) and np.array_equal(bl, labels) and np.array_equal(bu, utils)
+    else:
+        cy = np.asarray(compute_all_importances_cy(labels.copy(), dist.copy(), utils.copy(), nulls.copy()), dtype=np.float64)
+        ref = np.asarray(compute_all_importances(labels.copy(), dist.copy(), utils.copy(), nulls.copy()), dtype=np.float64)
     assert cy.shape == (c["n"],) and ref.shape == (c["n"],), (cy.shape, ref.shape)
     if c["large"]:
         scale = 1.0 + float(np.max(np.abs(utils))) if utils.size else 1.0
